@@ -1248,6 +1248,114 @@ func c18EntropyFaults(c *Ctx) {
 	tail("EvaluatorRound2", 32*256-1)
 }
 
+// ---------------------------------------------------------------- directed Round3 tampering
+//
+// The evaluator must answer a tampered Round3 with an error or with the right
+// digest, never with another digest; and it MUST answer with an error when
+// the label it holds on some output wire is neither of that wire's hints.
+// Hint tampering leaves the evaluator's output labels as in the honest run
+// (known here: hint[bit]), so those cases are also correspondence cases for
+// the model's output-decoding step (kind 8).
+
+func c18TamperRound3(c *Ctx, run *c18Run) {
+	cv := run.cv
+	r := c.rng.Fork()
+	enc := run.enc[c18R3]
+	total := sha2pc.VerifC18Round3PayloadLen()
+	const hdr, nIn, nHint, nCt = 42, 256 * 16, 256 * 32, 256 * 32
+	hintOff := total - nCt - nHint
+	tabEnd := hintOff - nIn
+	if len(enc) != total {
+		return
+	}
+	es, err := sha2pc.DecodeEvaluatorSession(cv.c, run.enc[c18ES])
+	if err != nil {
+		return // reported by the own-encoding oracle
+	}
+	var x [32]byte
+	for i := range x {
+		x[i] = run.a[i] ^ run.b[i]
+	}
+	want := sha256.Sum256(x[:])
+	outBit := func(k int) bool { return want[k/8]>>(uint(k)%8)&1 == 1 }
+	// labels the evaluator ends with on the output wires in the honest run
+	honest := make([]ot.Label, 256)
+	for k, w := range run.r3.OutputHints {
+		if outBit(k) {
+			honest[k] = w.L1
+		} else {
+			honest[k] = w.L0
+		}
+	}
+	try := func(name string, pos int, mask byte, wire int, mustErr bool, corr bool) {
+		b := cloneBytes(enc)
+		b[pos] ^= mask
+		var digest [32]byte
+		var p3 sha2pc.Round3Payload
+		cls, msg := c18Guard(func() (err error) {
+			if p3, err = sha2pc.DecodeRound3(b); err != nil {
+				return
+			}
+			digest, err = sha2pc.EvaluatorRound4(cv.c, es, p3)
+			return
+		})
+		c.Eval(fmt.Sprintf("tamper|%s|%d|%d|%d", cv.name, pos, mask, run.s1), true)
+		c.Hist(fmt.Sprintf("tamper-round3:%s:%s", name, []string{"ok", "err", "panic"}[cls]))
+		rep := c18Replay{Seed: c.Seed, Curve: cv.name, Kind: "EvaluatorRound4", A: fmt.Sprintf("%x", run.a), B: fmt.Sprintf("%x", run.b),
+			Seeds: fmt.Sprintf("%d,%d,%d", run.s1, run.s2, run.s3),
+			Mut:   fmt.Sprintf("%s: byte %d of the %d-byte Round3 encoding xor %#02x (output wire %d)", name, pos, total, mask, wire),
+			Want:  fmt.Sprintf("%x", want)}
+		key := ""
+		switch {
+		case cls == clsPanic:
+			key, rep.What = "panic", "EvaluatorRound4 panics on a tampered Round3: "+msg
+		case cls == clsOk && digest != want:
+			key, rep.What, rep.Got = "wrong-digest", "a tampered Round3 is accepted and the evaluator outputs a digest that is not SHA-256(a xor b)", fmt.Sprintf("%x", digest)
+		case cls == clsOk && mustErr:
+			key, rep.What = "accepted", "a tampered Round3 is accepted although the evaluator's label on this output wire is neither of the wire's hints"
+		}
+		if key != "" {
+			w := fmt.Sprintf("wire%d", wire)
+			if wire < 0 {
+				w = fmt.Sprintf("byte%d", pos)
+			}
+			c.Fail(fmt.Sprintf("c18:EvaluatorRound4:tampered-%s:%s:%s", name, w, key), rep.What, rep)
+		}
+		if corr && cls != clsPanic {
+			hs := make([]SX, len(p3.OutputHints))
+			for i, w := range p3.OutputHints {
+				hs[i] = L(Label(w.L0), Label(w.L1))
+			}
+			obs := L(I(1))
+			if cls == clsOk {
+				obs = L(I(0), Bytes(digest[:]))
+			}
+			c.Case(L(I(8), L(hs...), Labels(honest)), obs)
+		}
+	}
+	wires := []int{0, 1, 7, 100, 254, 255}
+	if c.Thorough() {
+		for i := 0; i < 24; i++ {
+			wires = append(wires, r.Intn(256))
+		}
+	}
+	for _, k := range wires {
+		for half := 0; half < 2; half++ {
+			active := (half == 1) == outBit(k)
+			pos := hintOff + 32*k + 16*half + r.Intn(16)
+			try("output-hint", pos, byte(1)<<uint(r.Intn(8)), k, active, true)
+		}
+	}
+	// the last garbled rows and the garbler's input labels: the evaluator's labels are not known here (oracle only)
+	for i := 0; i < c.N(4, 40); i++ {
+		try("table-row", tabEnd-1-r.Intn(16*2000), byte(1)<<uint(r.Intn(8)), -1, false, false)
+	}
+	for i := 0; i < c.N(2, 20); i++ {
+		try("garbler-input-label", tabEnd+r.Intn(nIn), byte(1)<<uint(r.Intn(8)), -1, false, false)
+	}
+	_ = hdr
+}
+
 // ---------------------------------------------------------------- op histories
 //
 // A process holding several sessions calls an encoder several times and keeps
@@ -1786,6 +1894,9 @@ func runC18(c *Ctx) error {
 				}
 			}
 			c18OwnEncodings(c, base, chunkLimit)
+			if class == 2 && (cv.bl == 32 || c.Thorough()) {
+				c18TamperRound3(c, base)
+			}
 			// (b) the run's own encodings
 			for _, k := range []int{c18R1, c18R2, c18GS, c18ES} {
 				c18EmitDecode(c, k, cv, c18Mut{name: "pristine", segs: c18Auto(base.enc[k])}, true)
